@@ -34,7 +34,7 @@ var Families = []string{
 	"json", "json_trunc", "json_bad", "geojson", "har", "gltf", "json_deep", "json_nest", "json_wide",
 	"ndjson", "ndjson_bad", "csv", "csv_ragged", "csv_big", "tsv",
 	"png", "gif", "pdf", "zip", "docx", "ole", "elf", "gzip", "random", "empty",
-	"shebang", "svg", "rtf", "srt", "vcard", "bom8", "utf8", "tar", "sample",
+	"shebang", "svg", "rtf", "srt", "vcard", "bom8", "utf8", "tar", "sample", "corpus",
 }
 
 // SampleDir is the directory of real sample files (the repository's testdata);
@@ -78,6 +78,59 @@ func sample(i int) []byte {
 	}
 	sampleCache[name] = b
 	return b
+}
+
+// CorpusFile holds the repository's own table of sample inputs (extracted from
+// its test files when the check was prepared): one or more inputs per supported
+// format. Empty or unreadable: the "corpus" family falls back to "sample".
+var CorpusFile string
+
+var corpusData [][]byte
+var corpusNames []string
+var corpusLoaded bool
+
+// Corpus returns the names of the corpus entries.
+func Corpus() []string {
+	if !corpusLoaded {
+		corpusLoaded = true
+		b, err := os.ReadFile(CorpusFile)
+		if err == nil && CorpusFile != "" {
+			next := func() (string, bool) {
+				if len(b) < 4 {
+					return "", false
+				}
+				n := int(b[0]) | int(b[1])<<8 | int(b[2])<<16 | int(b[3])<<24
+				if n < 0 || n > len(b)-4 {
+					return "", false
+				}
+				s := string(b[4 : 4+n])
+				b = b[4+n:]
+				return s, true
+			}
+			for {
+				name, ok := next()
+				if !ok {
+					break
+				}
+				data, ok := next()
+				if !ok {
+					break
+				}
+				if len(data) <= 4<<20 {
+					corpusNames = append(corpusNames, name)
+					corpusData = append(corpusData, []byte(data))
+				}
+			}
+		}
+	}
+	return corpusNames
+}
+
+func corpus(i int) []byte {
+	if len(Corpus()) == 0 {
+		return sample(i)
+	}
+	return corpusData[i%len(corpusData)]
 }
 
 // tarHeader builds one valid ustar header block (checksum included) followed by n content bytes.
@@ -390,6 +443,17 @@ func (in Input) base() []byte {
 		return tarHeader(names[v%len(names)], clamp(n, 0, 1<<20))
 	case "sample":
 		return append([]byte(nil), sample(clamp(v, 0, 1<<30)+clamp(p, 0, 1<<30))...)
+	case "corpus":
+		// the repository's own sample for some format, optionally followed by n bytes of text
+		// (p selects: 0 as is, 1 padded with text, 2 padded with zero bytes)
+		b := append([]byte(nil), corpus(clamp(v, 0, 1<<30))...)
+		switch clamp(p, 0, 2) {
+		case 1:
+			b = append(b, textN(clamp(n, 0, 1<<16), in.Seed)...)
+		case 2:
+			b = append(b, make([]byte, clamp(n, 0, 1<<16))...)
+		}
+		return b
 	case "utf8":
 		// valid UTF-8 text dense in 2-, 3- and 4-byte sequences, so that a cut at
 		// almost any limit falls inside a rune; V selects the mix, P shifts the phase
